@@ -242,13 +242,20 @@ func (s *manager) shutdownSession(ctx context.Context, session *sessions.Session
 	for idx := range topics {
 		s.state.Subscriptions().Delete(session.ID(), topics[idx])
 	}
-	metadata, err := s.state.SessionMetadatas().ByClientID(session.MountPoint(), session.ClientID())
-	if err == nil {
-		if metadata.SessionID != session.ID() {
-			// Session has reconnected on another peer.
-			return
+	// the session's own record goes away in any case; its will is withheld when
+	// the client has reconnected (another live record carries its client id).
+	// Two live records can carry one client id (a CONNECT accepted before the
+	// gossip of the earlier session arrived): a look-up by client id may return
+	// either, so it cannot decide what happens to this session's record.
+	reconnected := false
+	for _, metadata := range s.state.SessionMetadatas().All() {
+		if metadata.SessionID != session.ID() && metadata.MountPoint == session.MountPoint() && metadata.ClientID == session.ClientID() {
+			reconnected = true
 		}
-		s.state.SessionMetadatas().Delete(session.ID())
+	}
+	s.state.SessionMetadatas().Delete(session.ID())
+	if reconnected {
+		return
 	}
 	if !session.Disconnected {
 		L(ctx).Debug("session lost")
